@@ -112,6 +112,11 @@ pub struct UnmockCase {
     /// one method must not change how another method's calls are resolved
     #[serde(default)]
     pub extra_ordered_clause: bool,
+    /// strict mock only, q > 0: the clause is `..applies_unmocked().n_times(q)` and q calls are made before the
+    /// observed one: the observed call is SURPLUS, it still matches the pattern and still gets the pattern's (last)
+    /// response, i.e. the real function (the surplus is reported by verification, not at the call)
+    #[serde(default)]
+    pub quota: u8,
 }
 
 impl UnmockCase {
@@ -122,6 +127,14 @@ impl UnmockCase {
         }
         v.extend(self.methods.iter().map(|m| m.reg.clone()));
         v
+    }
+    /// number of calls made before the observed one (they use up the clause's exact count)
+    pub fn warmup_calls(&self) -> u8 {
+        if self.partial {
+            0
+        } else {
+            self.quota
+        }
     }
     fn target_spec(&self) -> &MethodSpec {
         &self.methods[self.target]
@@ -334,8 +347,9 @@ pub fn source(c: &UnmockCase) -> String {
     };
     let mut clauses: Vec<String> = vec![];
     if !c.partial {
+        let quantify = if c.warmup_calls() > 0 { format!(".n_times({})", c.warmup_calls()) } else { String::new() };
         clauses.push(format!(
-            "M::m{t}.each_call(&|m| m.func(|{pat}, _| true)).applies_unmocked()"
+            "M::m{t}.each_call(&|m| m.func(|{pat}, _| true)).applies_unmocked(){quantify}"
         ));
     } else if c.mention_unmatched {
         clauses.push(format!(
@@ -370,6 +384,14 @@ pub fn source(c: &UnmockCase) -> String {
     } else {
         format!("block_on({call})")
     };
+    for _ in 0..c.warmup_calls() {
+        s.push_str(&format!(
+            "    {{ let _ = std::panic::catch_unwind(std::panic::AssertUnwindSafe(|| {{ let _ = {call}; }})); }}\n"
+        ));
+    }
+    if c.warmup_calls() > 0 {
+        s.push_str("    let _ = take();\n");
+    }
     s.push_str(&format!(
         "    let r = std::panic::catch_unwind(std::panic::AssertUnwindSafe(|| {call}));\n    let ret = match r {{ Ok(v) => format!(\"{{}}\", v), Err(p) => format!(\"PANIC:{{}}\", p.downcast_ref::<String>().cloned().unwrap_or_default()) }};\n"
     ));
@@ -493,6 +515,7 @@ pub fn judge(c: &UnmockCase, line: &str) -> Result<CaseInfo, String> {
         .class_if(c.partial && !c.mention_unmatched, "partial:unmentioned")
         .class_if(c.partial && c.mention_unmatched, "partial:unmatched")
         .class_if(!c.partial, "strict:applies_unmocked")
+        .class_if(c.warmup_calls() > 0, "observed-call-is-surplus-to-an-exact-count")
         .class_if(m.has_default, "provided-method(default body)")
         .class_if(
             m.has_default && c.partial && c.mention_unmatched,
@@ -582,15 +605,15 @@ pub fn case_strategy() -> impl Strategy<Value = UnmockCase> {
         any::<bool>(),
         proptest::option::weighted(0.35, 0..=6u8),
         proptest::bool::weighted(0.3),
-        (prop_oneof![2 => Just(0u8), 1 => any::<u8>()], proptest::bool::weighted(0.3)),
+        (prop_oneof![2 => Just(0u8), 1 => any::<u8>()], proptest::bool::weighted(0.3), prop_oneof![2 => Just(0u8), 1 => 1..=3u8]),
     )
-        .prop_map(|(methods, t, partial, mention_unmatched, recursion, prior_error, (static_before, extra_ordered_clause))| {
+        .prop_map(|(methods, t, partial, mention_unmatched, recursion, prior_error, (static_before, extra_ordered_clause, quota))| {
             let target = t as usize % methods.len();
-            UnmockCase { methods, target, partial, mention_unmatched, recursion, prior_error, static_before, extra_ordered_clause }
+            UnmockCase { methods, target, partial, mention_unmatched, recursion, prior_error, static_before, extra_ordered_clause, quota }
         })
 }
 
-pub const RULE: &str = "programs = generated traits of 1-4 methods (plus an optional recursive method), each with its own unmock_with registration {_, path, path(permuted / subset of self and the parameters)}, &self or &mut self receivers, 0-4 parameters from {u8, i32, &str, &u32, &mut u32, String} with adjacent parameters often sharing a type, sync / async fn / -> impl Future; the target method is resolved to the real implementation through a partial mock (unmentioned or mentioned-but-unmatched) or through applies_unmocked() in a strict mock; recursion depth 0..6 through the mock with the base case answered by a counted pattern. Non-trivial = >= 2 methods with different registration forms, or explicit parameters, or recursion depth >= 2; distinct = distinct case";
+pub const RULE: &str = "programs = generated traits of 1-4 methods (plus an optional recursive method), each with its own unmock_with registration {_, path, path(permuted / subset of self and the parameters)}, &self or &mut self receivers, 0-4 parameters from {u8, i32, &str, &u32, &mut u32, String} with adjacent parameters often sharing a type, sync / async fn / -> impl Future; the target method is resolved to the real implementation through a partial mock (unmentioned or mentioned-but-unmatched) or through applies_unmocked() in a strict mock (optionally quantified n_times(q) with q earlier calls, so that the observed call is surplus and still gets the pattern's response); recursion depth 0..6 through the mock with the base case answered by a counted pattern. Non-trivial = >= 2 methods with different registration forms, or explicit parameters, or recursion depth >= 2; distinct = distinct case";
 
 fn spec<'a>() -> Spec<'a, UnmockCase> {
     Spec {
